@@ -8,7 +8,7 @@ class Dead(Exception):
         self.code, self.why, self.stderr = code, why, stderr
 
 class Wsrv:
-    def __init__(self, binary, timeout=120.0, env=None, cwd=None, prefix=None, rlimits=None, stderr_path=None):
+    def __init__(self, binary, timeout=120.0, env=None, cwd=None, prefix=None, rlimits=None, stderr_path=None, args=None):
         e = dict(os.environ)
         e['WALRUS_QUIET'] = '1'
         e.pop('WALRUS_DATA_DIR', None); e.pop('WALRUS_INSTANCE_KEY', None)
@@ -16,7 +16,7 @@ class Wsrv:
         self.timeout = timeout
         self.stderr_path = stderr_path
         self._errf = open(stderr_path, 'wb') if stderr_path else subprocess.DEVNULL
-        argv = (prefix or []) + [binary]
+        argv = (prefix or []) + [binary] + list(args or [])
         def pre():
             if rlimits:
                 import resource
